@@ -1,7 +1,9 @@
 package kernel
 
 import (
+	"runtime"
 	"sync"
+	"sync/atomic"
 	"time"
 )
 
@@ -57,7 +59,18 @@ type Task struct {
 	goid    uint64
 	ioIssue uint64
 	Panic   any
+	// state: stRunnable (holds or waits for the baton at a yield), stLimbo
+	// (inside a possibly blocking operation of the code under test, without
+	// the baton), stArrived (back from it, waiting for the baton).
+	state     int32
+	keptBaton bool
 }
+
+const (
+	stRunnable int32 = iota
+	stLimbo
+	stArrived
+)
 
 // Switch is one recorded context switch.
 type Switch struct {
@@ -113,6 +126,12 @@ type Sched struct {
 
 	held             [maxTasks]int
 	SkippedUnderLock int
+	BlockOps         int  // possibly blocking operations bracketed
+	BlockedWaits     int  // ... that really had to wait for another task
+	Deadlock         bool // every live task is blocked inside the code under test
+	giveUp           chan struct{}
+	self             *Task // the task executing BlockBegin (in limbo, but it is us)
+	stackBuf         []byte
 
 	pctPts [8]int
 	cand   [maxTasks]int
@@ -232,16 +251,26 @@ func hasPrefix(s, p string) bool {
 //
 //go:norace
 func (s *Sched) runnable(t *Task) int {
+	s.settle()
 	for {
 		k := 0
-		if t != nil && !t.done && t.wakeAt <= s.now {
+		if t != nil && !t.done && t.state == stRunnable && t.wakeAt <= s.now {
 			s.cand[k] = t.ID
 			k++
 		}
 		for i := 0; i < s.n; i++ {
 			u := s.tasks[i]
-			if u == t || u.done || u.wakeAt > s.now {
+			if u == t || u.done {
 				continue
+			}
+			switch atomic.LoadInt32(&u.state) {
+			case stArrived:
+			case stRunnable:
+				if u.wakeAt > s.now {
+					continue
+				}
+			default:
+				continue // blocked inside the code under test
 			}
 			s.cand[k] = u.ID
 			k++
@@ -252,7 +281,7 @@ func (s *Sched) runnable(t *Task) int {
 		min := int64(-1)
 		for i := 0; i < s.n; i++ {
 			u := s.tasks[i]
-			if u.done {
+			if u.done || atomic.LoadInt32(&u.state) != stRunnable {
 				continue
 			}
 			if min < 0 || u.wakeAt < min {
@@ -265,6 +294,107 @@ func (s *Sched) runnable(t *Task) int {
 		s.now = min
 		s.TimeJumps++
 	}
+}
+
+// settle waits until every task that is inside a possibly blocking operation
+// has either come back (arrived) or is really blocked in the Go runtime, so
+// that the set of runnable tasks is a function of the program and not of real
+// time. It reads goroutine states from a stack dump; this happens only while
+// such tasks exist.
+//
+//go:norace
+func (s *Sched) settle() {
+	for spin := 0; ; spin++ {
+		pending := false
+		var dump []byte
+		for i := 0; i < s.n; i++ {
+			u := s.tasks[i]
+			if u.done || u == s.self || atomic.LoadInt32(&u.state) != stLimbo {
+				continue
+			}
+			if dump == nil {
+				if s.stackBuf == nil {
+					s.stackBuf = make([]byte, 1<<20)
+				}
+				dump = s.stackBuf[:runtime.Stack(s.stackBuf, true)]
+			}
+			if !goroutineBlocked(dump, u.goid) && atomic.LoadInt32(&u.state) == stLimbo {
+				pending = true
+			}
+		}
+		if !pending {
+			return
+		}
+		if spin > 200000 {
+			return // the stall watchdog takes over
+		}
+		runtime.Gosched()
+	}
+}
+
+// goroutineBlocked reports whether goroutine id is parked in the runtime
+// (any wait reason) according to a full stack dump.
+//
+//go:norace
+func goroutineBlocked(dump []byte, id uint64) bool {
+	var pat [40]byte
+	n := copy(pat[:], "goroutine ")
+	var digits [20]byte
+	d := len(digits)
+	for x := id; ; x /= 10 {
+		d--
+		digits[d] = byte('0' + x%10)
+		if x < 10 {
+			break
+		}
+	}
+	n += copy(pat[n:], digits[d:])
+	n += copy(pat[n:], " [")
+	p := pat[:n]
+	for i := 0; i+len(p) < len(dump); i++ {
+		if dump[i] != 'g' || (i > 0 && dump[i-1] != '\n') {
+			continue
+		}
+		match := true
+		for j := range p {
+			if dump[i+j] != p[j] {
+				match = false
+				break
+			}
+		}
+		if !match {
+			continue
+		}
+		st := dump[i+len(p):]
+		// Only user-level synchronisation counts as blocked: a goroutine
+		// parked for a GC assist, a preemption or a debug call is still on
+		// its way.
+		for _, r := range blockedReasons {
+			if hasPrefixB(st, r) {
+				return true
+			}
+		}
+		return false
+	}
+	return false // not found: it may be exiting; treat as still moving
+}
+
+var blockedReasons = [...]string{
+	"chan receive", "chan send", "select", "sync.Cond.Wait", "sync.WaitGroup.Wait",
+	"sync.Mutex.Lock", "sync.RWMutex.RLock", "sync.RWMutex.Lock", "semacquire", "sleep", "IO wait",
+}
+
+//go:norace
+func hasPrefixB(b []byte, p string) bool {
+	if len(b) < len(p) {
+		return false
+	}
+	for i := 0; i < len(p); i++ {
+		if b[i] != p[i] {
+			return false
+		}
+	}
+	return true
 }
 
 // pick chooses the next task to run after t yielded.
@@ -407,6 +537,7 @@ func (s *Sched) Yield(kind int, label string, inOp bool) {
 			s.nsw++
 		}
 		s.cur = next.ID
+		atomic.StoreInt32(&next.state, stRunnable)
 		next.wake <- struct{}{}
 		<-t.wake
 	}
@@ -422,6 +553,80 @@ func (s *Sched) Yield(kind int, label string, inOp bool) {
 		}
 		t.ioIssue = 0
 	}
+	raceEnable()
+}
+
+// BlockBegin is called by the running task immediately before an operation
+// of the code under test that may block until another task acts (channel
+// receive/send, select without default, Wait). The task gives the baton away
+// first (this is a forced preemption point) and performs the operation
+// without it; BlockEnd takes the baton back.
+//
+//go:norace
+func (s *Sched) BlockBegin(label string) {
+	if !s.active {
+		return
+	}
+	t := s.tasks[s.cur]
+	if curGoid() != t.goid {
+		s.Foreign = true
+		return
+	}
+	s.pollRace(t, label)
+	raceDisable()
+	s.Yields++
+	s.BlockOps++
+	s.mixHash(t.ID, KindLock, label)
+	if s.Yields > s.cfg.MaxYields || s.tape.Over {
+		s.Aborted = true
+	}
+	atomic.StoreInt32(&t.state, stLimbo)
+	s.self = t
+	next := s.pick(nil, KindOp, label)
+	s.self = nil
+	if next == nil {
+		// nobody else can run: keep the baton and perform the operation
+		atomic.StoreInt32(&t.state, stRunnable)
+		t.keptBaton = true
+	} else {
+		s.SwitchCount++
+		s.MidOpSwitch++
+		if s.nsw < len(s.switches) {
+			s.switches[s.nsw] = Switch{Step: s.Yields, From: t.ID, To: next.ID, Kind: KindLock, Label: label}
+			s.nsw++
+		}
+		s.cur = next.ID
+		atomic.StoreInt32(&next.state, stRunnable)
+		next.wake <- struct{}{}
+	}
+	raceEnable()
+}
+
+// BlockEnd is called right after the possibly blocking operation returned.
+//
+//go:norace
+func (s *Sched) BlockEnd() {
+	if !s.active {
+		return
+	}
+	id := curGoid()
+	var t *Task
+	for i := 0; i < s.n; i++ {
+		if s.tasks[i].goid == id {
+			t = s.tasks[i]
+		}
+	}
+	if t == nil {
+		s.Foreign = true
+		return
+	}
+	if t.keptBaton {
+		t.keptBaton = false
+		return
+	}
+	raceDisable()
+	atomic.StoreInt32(&t.state, stArrived)
+	<-t.wake
 	raceEnable()
 }
 
@@ -443,7 +648,12 @@ func (s *Sched) finish(t *Task) {
 		next := s.pick(nil, KindOp, "end")
 		if next != nil {
 			s.cur = next.ID
+			atomic.StoreInt32(&next.state, stRunnable)
 			next.wake <- struct{}{}
+		} else {
+			// every remaining task is blocked inside the code under test
+			s.Deadlock = true
+			close(s.giveUp)
 		}
 	}
 	raceEnable()
@@ -501,6 +711,7 @@ func (s *Sched) Run(fns []func(*Task)) bool {
 		panic("too many tasks")
 	}
 	var wg sync.WaitGroup
+	s.giveUp = make(chan struct{})
 	s.n = len(fns)
 	s.live = len(fns)
 	for i := range fns {
@@ -521,14 +732,44 @@ func (s *Sched) Run(fns []func(*Task)) bool {
 	}()
 	timer := time.NewTimer(s.cfg.StallAfter)
 	defer timer.Stop()
-	select {
-	case <-done:
-		s.active = false
-		Current = nil
-		return true
-	case <-timer.C:
+	tick := time.NewTicker(100 * time.Millisecond)
+	defer tick.Stop()
+	suspect := 0
+	for {
+		select {
+		case <-done:
+			s.active = false
+			Current = nil
+			return true
+		case <-s.giveUp:
+			return false
+		case <-timer.C:
+			return false
+		case <-tick.C:
+			// a task that kept the baton (nobody else could run) and is now
+			// parked inside its blocking operation will never come back
+			if s.keptAndBlocked() {
+				suspect++
+				if suspect >= 2 {
+					s.Deadlock = true
+					return false
+				}
+			} else {
+				suspect = 0
+			}
+		}
+	}
+}
+
+//go:norace
+func (s *Sched) keptAndBlocked() bool {
+	t := s.tasks[s.cur]
+	if t == nil || !t.keptBaton {
 		return false
 	}
+	buf := make([]byte, 1<<20)
+	dump := buf[:runtime.Stack(buf, true)]
+	return goroutineBlocked(dump, t.goid)
 }
 
 // TaskPanic returns the panic value of task i, if it panicked outside an
